@@ -142,6 +142,54 @@ def LegalIdents {F : Type} : Expr F → Prop
   | .ident s => s ≠ "PI" ∧ s ≠ "E"
   | _ => True
 
+
+/-! ## Every spelling the standard allows (token level)
+
+`Spells c e ts`: the token list `ts` is a way to write the tree `e` at a position that accepts
+precedence `c` or tighter.  Besides the forms of `printMin` it contains: redundant parentheses
+around any sub-expression, the function form `NEG(x)` of unary minus, unary plus, and the
+constants `PI` and `E`. -/
+inductive Spells {F : Type} [FloatOps F] : Nat → Expr F → List (Tok F) → Prop
+  | int (c : Nat) (i : BitVec 64) (hc : c ≤ PRIMARY_PREC) : Spells c (.int i) [.int i]
+  | float (c : Nat) (f : F) (hc : c ≤ PRIMARY_PREC) : Spells c (.float f) [.float f]
+  | ident (c : Nat) (s : String) (hc : c ≤ PRIMARY_PREC) (h1 : s ≠ "PI") (h2 : s ≠ "E") :
+      Spells c (.ident s) [.ident s]
+  | pi (c : Nat) (hc : c ≤ PRIMARY_PREC) : Spells c (.float FloatOps.pi) [.ident "PI"]
+  | e (c : Nat) (hc : c ≤ PRIMARY_PREC) : Spells c (.float FloatOps.e) [.ident "E"]
+  | paren (c : Nat) (x : Expr F) (ts : List (Tok F)) (hc : c ≤ PRIMARY_PREC) (h : Spells 0 x ts) :
+      Spells c x (.sym .lparen :: (ts ++ [.sym .rparen]))
+  | func (c : Nat) (s : String) (k : UnOpKind) (x : Expr F) (ts : List (Tok F)) (hc : c ≤ PRIMARY_PREC)
+      (hs : (s, k) ∈ functions) (h : Spells 0 x ts) :
+      Spells c (.unOp k x) (.ident s :: .sym .lparen :: (ts ++ [.sym .rparen]))
+  | neg (c : Nat) (x : Expr F) (ts : List (Tok F)) (hc : c ≤ UNARY_PREC) (h : Spells UNARY_PREC x ts) :
+      Spells c (.unOp .neg x) (.sym .minus :: ts)
+  | not (c : Nat) (x : Expr F) (ts : List (Tok F)) (hc : c ≤ UNARY_PREC) (h : Spells UNARY_PREC x ts) :
+      Spells c (.unOp .not x) (.sym .tilde :: ts)
+  | plus (c : Nat) (x : Expr F) (ts : List (Tok F)) (hc : c ≤ UNARY_PREC) (h : Spells UNARY_PREC x ts) :
+      Spells c x (.sym .plus :: ts)
+  | pow (c : Nat) (l r : Expr F) (tl tr : List (Tok F)) (hc : c ≤ POW_PREC)
+      (hl : Spells PRIMARY_PREC l tl) (hr : Spells UNARY_PREC r tr) :
+      Spells c (.binOp .pow l r) (tl ++ .sym .doubleStar :: tr)
+  | bin (c : Nat) (op : BinOpKind) (l r : Expr F) (tl tr : List (Tok F)) (hop : op ≠ .pow)
+      (hc : c ≤ prec op) (hl : Spells (prec op) l tl) (hr : Spells (prec op + 1) r tr) :
+      Spells c (.binOp op l r) (tl ++ .sym (symOf op) :: tr)
+  | ite (cnd t e : Expr F) (tc tt te : List (Tok F)) (hc : Spells 1 cnd tc) (ht : Spells 0 t tt)
+      (he : Spells 0 e te) :
+      Spells 0 (.ite cnd t e) (tc ++ .sym .question :: (tt ++ .sym .colon :: te))
+
+/-- Full parenthesisation: every operator application is wrapped in parentheses. -/
+def printFull {F : Type} : Expr F → List (Tok F)
+  | .binOp op l r => .sym .lparen :: (printFull l ++ .sym (symOf op) :: printFull r) ++ [.sym .rparen]
+  | .unOp .neg x => .sym .lparen :: (.sym .minus :: printFull x) ++ [.sym .rparen]
+  | .unOp .not x => .sym .lparen :: (.sym .tilde :: printFull x) ++ [.sym .rparen]
+  | .unOp k x => .ident (funcName k) :: .sym .lparen :: (printFull x ++ [.sym .rparen])
+  | .ite c t e =>
+    .sym .lparen :: (printFull c ++ .sym .question :: (printFull t ++ .sym .colon :: printFull e)) ++
+      [.sym .rparen]
+  | .int i => [.int i]
+  | .float f => [.float f]
+  | .ident s => [.ident s]
+
 /-! ## Reference evaluator -/
 
 inductive SVal (F : Type) where
